@@ -390,3 +390,206 @@ def check_store_advances(ctx, fi, rule='R-CURSOR/store-advances'):
                'overwrites the same place and what lies beyond it is never '
                'written')
     return n
+
+
+def check_batch_search(ctx, fi, rule='R-COVER/batch-search'):
+    """Batches cut by searching for the end of the next batch:
+
+        while True:
+            end = None
+            for c in range(start + 1, N):
+                if <enough>:  end = c; break
+            if end is None: break          # nothing left
+            ... process [start, end) ...; start = end
+
+    "No end found" ends the whole loop, so it has to mean "nothing left":
+    the search may only stop (`break`) after it has recorded an end.  A
+    `break` that leaves the search without an end recorded in that turn --
+    "this candidate is too large, give up" -- ends the enclosing loop while
+    items remain, and everything from `start` on is silently left out."""
+    n = 0
+    for outer in ast.walk(fi.node):
+        if not isinstance(outer, ast.While):
+            continue
+        body = outer.body
+        for i, st in enumerate(body):
+            if not (isinstance(st, ast.Assign) and len(st.targets) == 1
+                    and isinstance(st.targets[0], ast.Name)
+                    and isinstance(st.value, ast.Constant)
+                    and st.value.value is None):
+                continue
+            var = st.targets[0].id
+            search = None
+            stop = None
+            for later in body[i + 1:]:
+                if search is None and isinstance(later, ast.For) and any(
+                        isinstance(x, ast.Assign) and any(
+                            isinstance(t, ast.Name) and t.id == var
+                            for t in x.targets)
+                        for x in ast.walk(later)):
+                    search = later
+                    continue
+                if search is not None and isinstance(later, ast.If):
+                    t = later.test
+                    if isinstance(t, ast.Compare) and len(t.ops) == 1 \
+                            and isinstance(t.ops[0], ast.Is) \
+                            and isinstance(t.left, ast.Name) \
+                            and t.left.id == var and isinstance(
+                                t.comparators[0], ast.Constant) \
+                            and t.comparators[0].value is None \
+                            and later.body and isinstance(
+                                later.body[-1], (ast.Break, ast.Return)):
+                        stop = later
+                        break
+            if search is None or stop is None:
+                continue
+            # every break of the search loop follows, in its own block or
+            # an enclosing one of the same turn, an assignment of var
+            for br in ast.walk(search):
+                if not isinstance(br, ast.Break):
+                    continue
+                # not a break of a loop nested inside the search
+                p_ = getattr(br, '_parent', None)
+                inner = False
+                while p_ is not None and p_ is not search:
+                    if isinstance(p_, (ast.For, ast.While)):
+                        inner = True
+                    p_ = getattr(p_, '_parent', None)
+                if inner:
+                    continue
+                n += 1
+                assigned = False
+                blk_owner = getattr(br, '_parent', None)
+                node = br
+                while blk_owner is not None:
+                    for field in ('body', 'orelse'):
+                        blk = getattr(blk_owner, field, None)
+                        if isinstance(blk, list) and node in blk:
+                            for prev in blk[:blk.index(node)]:
+                                if any(isinstance(x, ast.Assign) and any(
+                                        isinstance(t, ast.Name)
+                                        and t.id == var for t in x.targets)
+                                        and not (isinstance(
+                                            x.value, ast.Constant)
+                                            and x.value.value is None)
+                                        for x in ast.walk(prev)
+                                        if not isinstance(
+                                            prev, (ast.If, ast.For,
+                                                   ast.While))
+                                        or x is prev):
+                                    assigned = True
+                    if blk_owner is search:
+                        break
+                    node = blk_owner
+                    blk_owner = getattr(blk_owner, '_parent', None)
+                ctx.touch(fi)
+                ctx.ob(rule, f'{fi.qual}:{var}#{n - 1}', fi.loc(br),
+                       assigned,
+                       f'the search stops only after `{var}` was recorded'
+                       if assigned else
+                       f'the search for `{var}` can `break` without '
+                       f'having recorded it; `if {var} is None` then ends '
+                       'the enclosing loop although items remain, and the '
+                       'rest is silently left out')
+    return n
+
+
+def check_copy_not_filtered_by_content(
+        ctx, fi, rule='R-COVER/copy-not-filtered-by-content'):
+    """a loop that copies a dataset piece by piece (`dst[w] = src[w]` for
+    every window / key w) may leave pieces out by their *key* (excluded
+    names), never by their *content*: a test on what was just read from
+    the source (`if block.max() == 0: continue`) decides from the data
+    whether the data is kept, and whatever the test misjudges (negative
+    values under a `max() == 0` test) silently becomes the fill value."""
+    from ..core.slicing import backward_slice
+    n = 0
+    for loop in ast.walk(fi.node):
+        if not (isinstance(loop, ast.For) and isinstance(
+                loop.target, ast.Name)):
+            continue
+        v = loop.target.id
+        # copy stores of this loop: D[v] = <something read at Y[v]>
+        copies = []
+        for st in ast.walk(loop):
+            if not (isinstance(st, ast.Assign) and len(st.targets) == 1
+                    and isinstance(st.targets[0], ast.Subscript)
+                    and isinstance(st.targets[0].slice, ast.Name)
+                    and st.targets[0].slice.id == v
+                    and isinstance(st.targets[0].value, ast.Name)):
+                continue
+            dname = st.targets[0].value.id
+            try:
+                sv = backward_slice(fi, st.value)
+            except Exception:
+                continue
+            reads = [x for x in ast.walk(st.value)
+                     if isinstance(x, ast.Subscript) and isinstance(
+                         x.slice, ast.Name) and x.slice.id == v]
+            if not reads:
+                # through a local: block = src[v]
+                for nm in sv.names:
+                    for d in ast.walk(loop):
+                        if isinstance(d, ast.Assign) and len(
+                                d.targets) == 1 and isinstance(
+                                    d.targets[0], ast.Name) \
+                                and d.targets[0].id == nm and isinstance(
+                                    d.value, ast.Subscript) \
+                                and isinstance(d.value.slice, ast.Name) \
+                                and d.value.slice.id == v:
+                            reads.append(d.value)
+            reads = [r for r in reads if not (isinstance(
+                r.value, ast.Name) and r.value.id == dname)]
+            if reads:
+                copies.append((st, reads))
+        for (st, reads) in copies:
+            # the tests that can bypass the store within one turn
+            tests = []
+            p_ = getattr(st, '_parent', None)
+            child = st
+            while p_ is not None and p_ is not loop:
+                if isinstance(p_, ast.If):
+                    tests.append(p_.test)
+                child = p_
+                p_ = getattr(p_, '_parent', None)
+            for other in ast.walk(loop):
+                if isinstance(other, ast.If) and any(
+                        isinstance(x, (ast.Continue, ast.Break))
+                        for b in other.body + other.orelse
+                        for x in ast.walk(b)) \
+                        and getattr(other, 'lineno', 0) <= getattr(
+                            st, 'lineno', 0):
+                    tests.append(other.test)
+            n += 1
+            bad = None
+            src_texts = {unparse(r) for r in reads}
+            for t in tests:
+                if any(unparse(x) in src_texts for x in ast.walk(t)
+                       if isinstance(x, ast.Subscript)):
+                    bad = t
+                    break
+                try:
+                    sl = backward_slice(fi, t)
+                except Exception:
+                    continue
+                local_reads = set()
+                for nm in sl.names:
+                    for d in ast.walk(loop):
+                        if isinstance(d, ast.Assign) and len(
+                                d.targets) == 1 and isinstance(
+                                    d.targets[0], ast.Name) \
+                                and d.targets[0].id == nm \
+                                and unparse(d.value) in src_texts:
+                            local_reads.add(nm)
+                if local_reads:
+                    bad = t
+                    break
+            ctx.touch(fi)
+            ctx.ob(rule, f'{fi.qual}:copy#{n - 1}', fi.loc(st), bad is None,
+                   'every piece is copied whatever it contains'
+                   if bad is None else
+                   f'`{unparse(st)[:50]}` is skipped when '
+                   f'`{unparse(bad)[:50]}` holds, a test on the content '
+                   'just read from the source: pieces the test misjudges '
+                   'are left at the fill value')
+    return n
